@@ -4,6 +4,7 @@ package main
 // bodies into SMT-LIB with one query per obligation.
 
 import (
+	"os"
 	"fmt"
 	"go/constant"
 	"go/token"
@@ -83,7 +84,11 @@ type Enc struct {
 	S     *Sorts
 	fn    *ssa.Function
 	con   *Contract
-	body  strings.Builder
+	lines  []bodyLine // the encoding so far: declarations and assertions, each tagged with the block that emitted it
+	refFacts map[string]int
+	hooksFired map[string]bool // `at call` keys of the contract that matched some call site
+	curBlk int        // index of the top-level block being encoded (-1: before the body)
+	anc    map[int]map[int]bool
 	n     int
 	obls  []*Obligation
 	names map[string]int
@@ -149,6 +154,7 @@ type Frame struct {
 	args     []Val
 	panicked bool
 	curArgTypes []types.Type
+	curCallArgs []ssa.Value
 	curResTypes *types.Tuple
 	selfTerm string
 	parent   *Frame
@@ -167,12 +173,66 @@ func (e *Enc) fresh(prefix string) string {
 	return q(fmt.Sprintf("%s!%d", prefix, e.n))
 }
 
+type bodyLine struct {
+	text   string
+	blk    int
+	assert bool
+}
+
 func (e *Enc) decl(name, sort string) {
-	fmt.Fprintf(&e.body, "(declare-const %s %s)\n", name, sort)
+	e.lines = append(e.lines, bodyLine{text: fmt.Sprintf("(declare-const %s %s)\n", name, sort), blk: e.curBlk})
 }
 
 func (e *Enc) assert(t string) {
-	fmt.Fprintf(&e.body, "(assert %s)\n", t)
+	e.lines = append(e.lines, bodyLine{text: fmt.Sprintf("(assert %s)\n", t), blk: e.curBlk, assert: true})
+}
+
+// ancestors of block b in the control-flow graph without back edges (b included).
+func (e *Enc) ancestors(b int) map[int]bool {
+	if e.anc == nil {
+		e.anc = map[int]map[int]bool{}
+	}
+	if a, ok := e.anc[b]; ok {
+		return a
+	}
+	a := map[int]bool{}
+	if e.fn != nil && b >= 0 && b < len(e.fn.Blocks) {
+		var walk func(x *ssa.BasicBlock)
+		walk = func(x *ssa.BasicBlock) {
+			if a[x.Index] {
+				return
+			}
+			a[x.Index] = true
+			for _, p := range x.Preds {
+				if !isBackEdge(p, x) {
+					walk(p)
+				}
+			}
+		}
+		walk(e.fn.Blocks[b])
+	}
+	e.anc[b] = a
+	return a
+}
+
+// bodyText: the encoding as seen from the block being encoded. Every
+// declaration is kept; an assertion is kept only if the block that emitted it
+// lies on some path to the current block. Facts established on other branches
+// cannot hold on a path through this block, and dropping assumptions is sound;
+// it keeps quantified facts of unrelated branches out of each query.
+func (e *Enc) bodyText() string {
+	var sb strings.Builder
+	var anc map[int]bool
+	if e.curBlk >= 0 && os.Getenv("GOVC_NOSLICE") == "" {
+		anc = e.ancestors(e.curBlk)
+	}
+	for _, l := range e.lines {
+		if l.assert && anc != nil && l.blk >= 0 && !anc[l.blk] {
+			continue
+		}
+		sb.WriteString(l.text)
+	}
+	return sb.String()
 }
 
 func (e *Enc) define(prefix, sort, term string) string {
@@ -556,7 +616,7 @@ func (e *Enc) addObl(kind, detail, reach, cond string, pos token.Pos, src string
 		o.Pos = e.P.fset.Position(pos).String()
 	}
 	var qb strings.Builder
-	qb.WriteString(e.body.String())
+	qb.WriteString(e.bodyText())
 	fmt.Fprintf(&qb, "(assert %s)\n(assert (not %s))\n", reach, cond)
 	o.Query = qb.String()
 	o.Bounds = e.bounds.String()
@@ -573,7 +633,7 @@ func (e *Enc) addReach(detail, reach string, pos token.Pos) {
 	if pos.IsValid() {
 		o.Pos = e.P.fset.Position(pos).String()
 	}
-	o.Query = e.body.String() + fmt.Sprintf("(assert %s)\n", reach)
+	o.Query = e.bodyText() + fmt.Sprintf("(assert %s)\n", reach)
 	e.obls = append(e.obls, o)
 }
 
@@ -655,7 +715,7 @@ func (e *Enc) addGroup(kind, detail, reach string, names, conds []string, pos to
 		return
 	}
 	parent := e.addObl(kind, detail, reach, and(conds...), pos, src, props)
-	prefix := e.body.String()
+	prefix := e.bodyText()
 	fnName := e.P.fnDisplay(e.fn)
 	for i, c := range conds {
 		ch := &Obligation{Name: fmt.Sprintf("%s#%s:%s", fnName, kind, names[i]), Kind: kind, Fn: fnName, Src: src, Props: props, Pos: parent.Pos}
